@@ -138,6 +138,55 @@ def dollar_programs():
     return out
 
 
+def unassignable_targets():
+    """an assignment whose target has nowhere to store (a literal, a call, a container literal, a function literal, an
+    if / match value, $n, a predefined name): it used to compile into two pushes and one pop - one slot leaked per
+    execution; the front end has to refuse it wherever it is written"""
+    from ..past import dollar
+    targets = {
+        "null": lambda: lit({"k": "null"}), "true": lambda: lit(vbool(True)), "int": lambda: I(1), "str": lambda: lit(vstr("a")),
+        "call": lambda: call("id1", I(1)), "call-result-call": lambda: call(call("mk")),
+        "array-literal": lambda: arr(I(1)), "empty-array": lambda: arr(), "map-literal": lambda: map_((I(1), I(2))),
+        "fn-literal": lambda: {"t": "fn", "n": "", "ps": [], "body": [expr(I(1))]},
+        "if-value": lambda: if_(lit(vbool(True)), [expr(I(1))], [expr(I(2))]),
+        "match-value": lambda: match(I(1), [arm([pdef()], [expr(I(2))])]),
+        "dollar": lambda: dollar(1), "stdout": lambda: ident("stdout"), "builtin-name": lambda: ident("len"),
+        "packet-count": lambda: ident("NP"), "sum": lambda: bin_("+", ident("acc"), I(1)), "negation": lambda: un("-", ident("acc")),
+    }
+    places = {
+        "stmt": lambda a: [expr(a)],
+        "let-init": lambda a: [let("t", a)],
+        "operand": lambda a: [expr(bin_("+", I(1), a))],
+        "argument": lambda a: [expr(call("id1", a))],
+        "chained": lambda a: [expr(asg(ident("acc"), a))],
+        "if-body": lambda a: [expr(if_(bin_("<", ident("c"), I(0)), [expr(a)]))],
+    }
+    pre = [OBS_DECL, fndef("id1", ["a"], [expr(ident("a"))]), fndef("mk", [], [expr(ident("id1"))]), let("acc", I(0))]
+    out = []
+    for tn, mk in targets.items():
+        for pn, place in places.items():
+            inc = expr(asg(ident("c"), bin_("+", ident("c"), I(1))))
+            body = [inc] + place(asg(mk(), I(5))) + [obs(ident("c"))]
+            out.append(("unassignable target=%s place=%s at=top" % (tn, pn), pre + [let("c", I(0)), while_(bin_("<", ident("c"), I(3)), body), obs(I(77))]))
+            if pn in ("stmt", "operand"):
+                out.append(("unassignable target=%s place=%s at=function" % (tn, pn),
+                            pre + [fndef("run", [], [let("c", I(0)), while_(bin_("<", ident("c"), I(3)), body), expr(I(9))]), obs(call("run"))]))
+                out.append(("unassignable target=%s place=%s at=filter-action" % (tn, pn),
+                            pre + [let("c", I(0)), {"t": "filter", "pat": lit(vbool(True)), "act": place(asg(mk(), I(5)))}, obs(I(77))]))
+    return out
+
+
+def unassignable(rep, tier):
+    """refused by the front end (RefSem's static rule "lvalue"), never compiled into something that runs"""
+    items = [{"id": "u%d" % k, "prog": prog, "tag": tag} for k, (tag, prog) in enumerate(unassignable_targets())]
+    bad, verdicts = progs.run_and_validate(rep, items, chk=())
+    for it, out, v in bad:
+        tag = it["tag"]
+        rep.disagree("%s: %s instead of a front-end error" % (" ".join(tag.split(" ")[:2]), out["how"]),
+                     {"src": it["src"], "expected": v.get("exp"), "got": it["raw"]})
+    rep.notes["unassignable_target_programs"] = len(items)
+
+
 def long_runs(n):
     """loop bodies executed n times (sparse tracing)"""
     out = []
@@ -223,6 +272,7 @@ def run(rep, tier, seed):
                        "contains at least one marker or backward jump (all do); distinct = distinct source texts")
     rep.cov["exhaustive"] = False
     rep.sample({"src": items[0]["src"], "trace_head": items[0]["raw"].get("trace", [])[:12]})
+    unassignable(rep, tier)
     end_to_end(rep, tier)
 
 
